@@ -93,7 +93,7 @@ func parseBV(s string) (uint64, bool) {
 }
 
 // queryValues runs the failing obligation again and asks for the values of the given terms.
-func (o *Obligation) queryValues(terms []string, timeoutS int) (map[string]string, bool) {
+func (o *Obligation) queryValues(terms []string, timeoutS int, extra ...string) (map[string]string, bool) {
 	var b strings.Builder
 	b.WriteString("(set-option :produce-models true)\n")
 	b.WriteString(prelude)
@@ -104,7 +104,11 @@ func (o *Obligation) queryValues(terms []string, timeoutS int) (map[string]strin
 		b.WriteString(d)
 		b.WriteByte('\n')
 	}
-	fmt.Fprintf(&b, "(assert %s)\n(assert (not %s))\n(check-sat)\n", o.Guard, o.Goal)
+	fmt.Fprintf(&b, "(assert %s)\n(assert (not %s))\n", o.Guard, o.Goal)
+	for _, x := range extra {
+		fmt.Fprintf(&b, "(assert %s)\n", x)
+	}
+	b.WriteString("(check-sat)\n")
 	for _, t := range terms {
 		fmt.Fprintf(&b, "(get-value (%s))\n", t)
 	}
@@ -223,7 +227,28 @@ func tryReplay(e *Engine, rep *FnReport, o *Obligation, ob *OblReport, verifDir 
 			}
 		}
 	}
-	vals, ok := o.queryValues(terms, 20)
+	// prefer small witnesses: first ask for a model whose byte slices and strings fit the replay window
+	var small []string
+	for _, p := range fn.Params {
+		v := o.fc.vals[p]
+		switch u := p.Type().Underlying().(type) {
+		case *types.Slice:
+			small = append(small, app("bvule", v.L[2], bvLit(replayBytes, 64)))
+		case *types.Basic:
+			if u.Kind() == types.String {
+				small = append(small, app("bvule", app("strlen", v.L[0]), bvLit(replayBytes, 64)))
+			}
+		}
+	}
+	for _, ftm := range fieldTerms {
+		if len(ftm.leafs) == 4 {
+			small = append(small, app("bvule", ftm.leafs[2], bvLit(replayBytes, 64)))
+		}
+	}
+	vals, ok := o.queryValues(terms, 20, small...)
+	if !ok {
+		vals, ok = o.queryValues(terms, 20)
+	}
 	if !ok {
 		content["replay"] = "none: model extraction failed"
 		return false
